@@ -398,7 +398,8 @@ REGIONS = {"rcb-line": region_rcb}
 FRAGS = ["\\", ";", ":", ",", '"', "%", "=", "^", "\r", "\n", "\t", "\x00", "\x7f", " ", "BEGIN:VEVENT", "END:VCALENDAR", "END:VEVENT",
          "\r\n ", "\r\nBEGIN:VTODO\r\n", "\nEND:VEVENT\n", "%3A", "%5C", "\\n", "\\;", "a", "b", "1", "x-y", "é", " "]
 # the percent escapes of RC-B in lower and mixed case (ordinary URL-encoded text, not the upper-case forms), and their neighbours
-FRAGS += ["%2c", "%3a", "%3b", "%5c", "%2f", "%3a%2f%2f", "%25", "%253A", "%22", "%0A", "%0d%0a", "%2C".lower() + "%3A"]
+FRAGS += ["\ufdd0", "\ufdd1", "\ufdd2", "\ufdd3", "\ufdef", "\ufffe", "\uffff", "\ue000", "\U0010fffe", "\x1a", "\x1b",       # placeholder candidates
+          "%2c", "%3a", "%3b", "%5c", "%2f", "%3a%2f%2f", "%25", "%253A", "%22", "%0A", "%0d%0a", "%2C".lower() + "%3A"]
 hostile_text = st.lists(st.one_of(st.sampled_from(FRAGS), st.characters(blacklist_categories=("Cs",))), max_size=8).map("".join)
 mild_text = st.lists(st.sampled_from(["\\", ";", ":", ",", '"', "%", "=", "^", " ", "BEGIN:VEVENT", "END:VCALENDAR", "a", "b", "\t",
                                       "mailto:", "http://x/", "é", "'", "%2c", "%3a", "%3b", "%5c", "%22", "?q=is%3apr"]), max_size=8).map("".join)
